@@ -89,7 +89,10 @@ pub fn scripted_action(b: &mut ScnB, store: StoreIx, r: &RawOp, o: &ActOpts) -> 
     }
     if o.veto && !o.middlewares.is_empty() && (r.c >> 4) % 8 == 0 {
         let m = o.middlewares[pick(r.b, o.middlewares.len())];
-        b.act_mut(a).verdicts.push((m, Hook::BeforeReduce, Verdict::Done));
+        // a veto - or a fault in the same place: an Err is reported to on_error and otherwise means
+        // Continue, so the action must still go through the whole chain
+        let v = if (r.c >> 7) & 1 == 0 { Verdict::Done } else { Verdict::Err };
+        b.act_mut(a).verdicts.push((m, Hook::BeforeReduce, v));
     }
     a
 }
@@ -377,6 +380,40 @@ pub fn check_effects(d: &Digest, p: &PipeResult, followups_awaited: bool, viol: 
                     }
                 }
             }
+        }
+    }
+}
+
+
+/// Notifications of direct/selector subscribers after their unsubscribe() had returned (typed Late
+/// findings of the pipeline model), classified against the known-finding signature
+/// `notify-after-unsubscribe-inflight`: exactly one late action per subscriber, reduced before the
+/// unsubscribe returned (the single notification snapshot in flight). Anything else is a violation.
+pub fn classify_late(d: &Digest, p: &PipeResult, s: StoreIx, report_known: bool, out: &mut Outcome) {
+    let sd = &d.stores[s];
+    let runs = &p.runs[s];
+    let mut late_by_sub: std::collections::BTreeMap<SubId, Vec<&pipe::Finding>> = Default::default();
+    for f in p.findings.iter().filter(|f| f.kind == Kind::Late && f.store == s) {
+        late_by_sub.entry(f.sub.unwrap()).or_default().push(f);
+    }
+    for (sub, fs) in late_by_sub {
+        let iv = &sd.subs.iter().find(|(x, _)| *x == sub).unwrap().1;
+        let ur = iv.unsub_ret.unwrap();
+        let acts: std::collections::BTreeSet<ActId> = fs.iter().filter_map(|f| f.act).collect();
+        let single_inflight = acts.len() == 1 && {
+            let a = *acts.iter().next().unwrap();
+            runs.iter().find(|r| r.act == a).map(|r| r.reduced_at < ur).unwrap_or(false)
+        };
+        let msg = format!("store {}: subscriber {} was notified of action(s) {:?} after its unsubscribe() had returned at @{}", s, sub, acts, ur);
+        if single_inflight {
+            if report_known {
+                out.known("notify-after-unsubscribe-inflight", msg);
+            } else {
+                // the in-flight notification is C09's (known) finding, not this property's business
+                out.notes.push("Late(in-flight)".into());
+            }
+        } else {
+            out.viol(msg);
         }
     }
 }
